@@ -977,7 +977,16 @@ def generate(rng, tier):
                 else: nm = rng.choice(["tgauss", "tri", "sin", "gauss"]); fx = T1[nm][0]; dm = list(T1[nm][2]) if T1[nm][2] else rng.choice([[], [-1.0, 2.0]])
             if d2: o = f"metro2 {hx(sg)} {hx(sg * rng.choice([1.0, 0.5]))} {s_} {th} {b_} {flist(dm)} {fx}"; n = 2 + 3 * im
             else: o = f"metro {hx(sg)} {s_} {th} {b_} {flist(dm)} {fx}"; n = 1 + 2 * im
-        cs.append(as_w(seq_case(seed(), [o], n + 1, ()), ("seqw", kind, o.split()[0])))
+        cw = as_w(seq_case(seed(), [o], n + 1, ()), ("seqw", kind, o.split()[0]))
+        if kind == "thr99":
+            # aimed: generator states on which exactly one candidate in a hundred leaves the domain (constant density: every other acceptance
+            # probability is exactly 1), so the average is the double 0.99 = 1.0 - 1e-2, the threshold itself; and one candidate more / fewer
+            want = im // 100 + rng.choice([0, 0, 0, 1, -1])
+            for _try in range(60):
+                _, _, us_, ops_ = parse_seq(cw.line); tot = avg_accept(2 if d2 else 1, us_, 0, (ops_[0][1], ops_[0][2]) if d2 else (ops_[0][1],), im, dm, ops_[0][-1])
+                if tot is not None and im - tot == want: cw = Case(cw.line, cw.tags + ("on-threshold" if want == im // 100 else "beside-threshold",)); break
+                cw = as_w(seq_case(seed(), [o], n + 1, ()), ("seqw", kind, o.split()[0]))
+        cs.append(cw)
     for _ in range(R(10, 200)):
         a, n1 = op_metro(); b, n2 = op_metro2(); ops = [a, b] if rng.random() < 0.5 else [b, a]
         cs.append(as_w(seq_case(seed(), ops, n1 + n2 + 1, ()), ("seqw", "two-calls")))
